@@ -277,6 +277,17 @@ func init() {
 			return nil
 		},
 		"symIsSymbolic": func(p *Path, fr *frame, args []value) value { return Bool(p.concreteInputs == nil) },
+		// symContains(s, sub): strings.Contains as a single term (no forking)
+		"symContains": func(p *Path, fr *frame, args []value) value {
+			s, sub := strBytes(args[0]), strBytes(args[1])
+			r := termFalse
+			for i := 0; i+len(sub) <= len(s); i++ {
+				r = Or(r, hasPrefixTerm(s[i:], sub))
+			}
+			return r
+		},
+		// symStrEq(a, b): a == b as a single term
+		"symStrEq": func(p *Path, fr *frame, args []value) value { return strEq(args[0], args[1]) },
 	}
 }
 
